@@ -16,6 +16,8 @@ for sid in ids:
     try:
         r = subprocess.run(["git", "-C", wt, "apply", f"{d}/patch.diff"])
         if r.returncode:
+            r = subprocess.run(["git", "-C", wt, "apply", "--3way", f"{d}/patch.diff"])
+        if r.returncode:
             print(sid, "PATCH DOES NOT APPLY"); continue
         res = {}
         for chk in [pid] + EXTRA.get(pid, []):
